@@ -9,6 +9,11 @@ hs = [H("verifC04A", "whole-circuit session, 2+1 input bits, one gate of every t
       H("verifC04B", "same, gate on wires (1,2), inputs x=2,y=0"),
       H("verifC04Wide40", "40 garbler input bits (pseudo-random pattern), one free gate"),
       H("verifC04Wide520", "520 garbler input bits (more than the 512-label batch), one free gate")]
+hs.append(Harness("verifC04Round3", "./sha2pc", [("zzverif", "zzverif"), ("sha2pc", "sha2pc")],
+                  flags=["-init", "-github.com/markkurossi/mpc/sha2pc", "-harness-globals", "sha256xorCircuit", "-bigw", "256"], expect_reach=["end"],
+                  desc="SHA256(XOR) round protocol: the real sha2pc.GarblerRound3 (real Circuit.Garble, LabelForBit, EncryptCOCiphertexts) on a synthetic circuit with the required signature "
+                       "(256+256 inputs, 256 outputs, every gate kind), stub elliptic curve, deriveMask uninterpreted: every label-sized value of the Round-3 payload in EncodeRound3's field order "
+                       "(key, tables, garbler input labels, output hints, OT ciphertexts) at every byte offset; the two hint labels of each output wire are analysed per wire"))
 if tier != "quick":
     hs.append(H("verifC04C", "2+2 input bits, two gates of every type pair, two outputs"))
 sys.exit(run_property(
@@ -18,7 +23,9 @@ sys.exit(run_property(
     "engine decides whether w_i xor w_j = R (w_i = R) holds for all randomness: a pair is refuted by a concrete interpretation consistent with the path condition (random values, pseudo-random "
     "uninterpreted functions) or by an SMT query; a pair that is valid is a leak.",
     ["garbler inputs are concrete patterns (a leak must hold for all randomness; the quantifier over inputs is covered by the stated patterns)",
-     "the OT is ideal and reveals exactly one label per transferred wire (C06)", "AES is an uninterpreted function"],
-    ["streaming mode (Program.Stream needs the whole compiler inside the engine) and the sha2pc round protocol (see DESIGN.md: OutputHints finding from reading, not decided by this check)",
+     "the OT is ideal and reveals exactly one label per transferred wire (C06)", "AES is an uninterpreted function",
+     "sha2pc: sha256xorCircuit replaced by a synthetic circuit (go/ssa does not materialise the embedded blob); stub elliptic.Curve; ot.deriveMask (SHA-256) uninterpreted"],
+    ["streaming mode (Program.Stream needs the whole compiler inside the engine)",
+     "sha2pc: the byte layout produced by EncodeRound3 at the real table size (the payload fields are serialised by the harness in the same order), the real P-curves (stub curve: the points only feed deriveMask) and Round 1/2 messages (public OT points)",
      "linear combinations of more than two transmitted values; computational (non-structural) leakage", "input patterns other than the listed ones"],
     uses_uf=True, quick_deadline=900, thorough_deadline=3000, parallel=2))
